@@ -78,6 +78,7 @@ type Exec struct {
 	coverRet map[token.Pos]bool
 	bounded  bool
 	invPos   token.Pos
+	invLoop  *Loop
 }
 
 type assignItem struct {
@@ -510,7 +511,7 @@ func (x *Exec) load(st *State, addr Value, in ssa.Instruction) Value {
 		}
 		return v
 	case PElem:
-		return loadElem(st, p.Ty, p.Reg, p.Idx)
+		return x.wfLoaded(st, loadElem(st, p.Ty, p.Reg, p.Idx))
 	case PGlobal:
 		return x.W.globalValue(st, p.G)
 	case PGlobalElem:
@@ -522,7 +523,7 @@ func (x *Exec) load(st *State, addr Value, in ssa.Instruction) Value {
 		vfail("load of element of global %s of unsupported type", p.G.Name())
 	case PField:
 		x.nilCheck(st, p.Obj, in)
-		return loadField(st, p.Obj.Ty.Named, p.Field, p.Obj.Ref)
+		return x.wfLoaded(st, loadField(st, p.Obj.Ty.Named, p.Field, p.Obj.Ref))
 	case PObj:
 		// load of whole struct
 		x.nilCheck(st, p, in)
@@ -543,6 +544,37 @@ func (x *Exec) load(st *State, addr Value, in ssa.Instruction) Value {
 	}
 	vfail("load through unsupported pointer %T", addr)
 	return nil
+}
+
+// wfLoaded assumes the well-formedness of a slice/pointer value read from the heap: every
+// stored reference was allocated when it was stored and the allocation counter only grows.
+func (x *Exec) wfLoaded(st *State, v Value) Value {
+	z := BVInt(0, 64)
+	switch s := v.(type) {
+	case VSlice:
+		if s.Reg.IsConst() {
+			return v
+		}
+		st.assume(BVCmp("bvult", s.Reg, st.alloc))
+		st.assume(BVCmp("bvsle", z, s.Len))
+		st.assume(BVCmp("bvsle", z, s.Off))
+		st.assume(BVCmp("bvsle", s.Off, BVInt(int64(1)<<48, 64)))
+		if s.Ty.IsStr {
+			st.assume(BVCmp("bvsle", s.Len, BVInt(int64(1)<<48, 64)))
+		} else {
+			st.assume(BVCmp("bvsle", s.Len, s.Cap))
+			st.assume(BVCmp("bvsle", s.Cap, BVInt(maxLenFor(s.Ty.Elem), 64)))
+		}
+	case PObj:
+		if !s.Ref.IsConst() {
+			st.assume(BVCmp("bvult", s.Ref, st.alloc))
+		}
+	case PArr:
+		if !s.Reg.IsConst() {
+			st.assume(BVCmp("bvult", s.Reg, st.alloc))
+		}
+	}
+	return v
 }
 
 func (x *Exec) nilCheck(st *State, p PObj, in ssa.Instruction) {
